@@ -27,7 +27,7 @@ import (
 //           requests are not redirected any more
 // ---------------------------------------------------------------------------
 
-var c07ops = []string{"req-m0", "req-m1", "reset-m0", "m0-down", "m0-up", "move-g0", "move-g1", "refresh-round", "periodic-refresh", "m1-suspected", "m0-blackhole"}
+var c07ops = []string{"req-m0", "req-m1", "reset-m0", "m0-down", "m0-up", "move-g0", "move-g1", "refresh-round", "periodic-refresh", "m1-suspected", "m0-blackhole", "m0-silent-loss"}
 
 type c07case struct {
 	Ops []int `json:"ops"`
@@ -85,6 +85,11 @@ func c07run(cs c07case) (sig, detail string) {
 				m0.ResetConns()
 				sched.WaitQuiescent()
 				faultBefore = "after a connection reset"
+			case "m0-silent-loss":
+				// the connections to m0 die without FIN or RST (reads and writes fail with ETIMEDOUT); m0 itself is fine
+				m0.TimeoutConns()
+				sched.WaitQuiescent()
+				faultBefore = "after a connection was lost silently"
 			case "m0-down":
 				if !m0.Down {
 					m0.Stop()
